@@ -149,18 +149,33 @@ class Ctx:
 
     # --- model driver -----------------------------------------------------------------------
     def model(self, lines):
-        """Run the model driver on a batch of op lines; returns the list of output lines."""
+        """Run the model driver on a batch of op lines (split over parallel driver processes when
+        large); returns the list of output lines."""
         if not lines:
             return []
         exe = os.path.join(LEAN, ".lake", "build", "bin", "modeldrv")
-        data = "\n".join(lines) + "\n"
-        p = subprocess.run([exe], input=data, capture_output=True, text=True, timeout=3000)
-        if p.returncode != 0:
-            raise RuntimeError(f"modeldrv failed rc={p.returncode}: {p.stderr[:500]}")
-        out = p.stdout.splitlines()
-        if len(out) != len(lines):
-            raise RuntimeError(f"modeldrv returned {len(out)} lines for {len(lines)} ops; last: {out[-1:] if out else ''}")
-        return out
+
+        def one(chunk):
+            data = "\n".join(chunk) + "\n"
+            p = subprocess.run([exe], input=data, capture_output=True, text=True, timeout=3000)
+            if p.returncode != 0:
+                raise RuntimeError(f"modeldrv failed rc={p.returncode}: {p.stderr[:500]}")
+            out = p.stdout.split("\n")
+            if out and out[-1] == "":
+                out.pop()
+            if len(out) != len(chunk):
+                raise RuntimeError(f"modeldrv returned {len(out)} lines for {len(chunk)} ops; last: {out[-1:] if out else ''}")
+            return out
+        total = sum(len(l) for l in lines)
+        if len(lines) < 64 or total < 200000:
+            return one(lines)
+        import concurrent.futures
+        n = min(16, max(2, len(lines) // 32))
+        size = -(-len(lines) // n)
+        chunks = [lines[i:i + size] for i in range(0, len(lines), size)]
+        with concurrent.futures.ThreadPoolExecutor(n) as ex:
+            res = list(ex.map(one, chunks))
+        return [x for r in res for x in r]
 
     def compare_batch(self, cases, nontrivial=None, deliberate_equiv=True):
         """cases: list of (op_line, impl_out).  Compares with the model driver.
